@@ -4,4 +4,5 @@ import ArroyProofs.Properties.Unconditional
 import ArroyProofs.Properties.Reachable
 import ArroyProofs.Properties.C14Fair
 import ArroyProofs.Properties.C14FairBuild
+import ArroyProofs.Properties.C14Bound
 #audit Arroy.C14
